@@ -11,8 +11,8 @@ class S(D.Spec):
     monitor_fn = ("mon_c18", "mon_c18")
     corpus_file = os.path.join(C.CORPUS, "C18.cases")
     rule = ("EXHAUSTIVE and regenerated on every run: 14 property-carrying locations (CONNECT, will, CONNACK, PUBLISH, PUBACK, PUBREC, "
-            "PUBREL, PUBCOMP, SUBSCRIBE, SUBACK, UNSUBSCRIBE, UNSUBACK, DISCONNECT, AUTH) x 27 property identifiers x {once, twice}, each location on TWO base packets (minimal; and other flags / a failure reason code / "
-            "several entries / AUTH with Continue-authentication, locations 101..116) = 1512 cells, each through the BUILDER path (library constructors) and the PARSER path (packet bytes encoded by hand in the harness, "
+            "PUBREL, PUBCOMP, SUBSCRIBE, SUBACK, UNSUBSCRIBE, UNSUBACK, DISCONNECT, AUTH) x 27 property identifiers, each location on TWO base packets (minimal; and other flags / a failure reason code / "
+            "several entries / AUTH with Continue-authentication, locations 101..116) x {once, twice with the same value, twice with two different values} = 2268 cells, each through the BUILDER path (library constructors) and the PARSER path (packet bytes encoded by hand in the harness, "
             "independently of the library's serialisation); boundary values {0,1,2,..,max} of every numeric property through constructor and "
             "parser; all 229 unknown identifier bytes. The three tables are written to Generated/ObservedProps.v and compared with the "
             "specification table by Coq theorems (GenChecks/C18.v). PLUS seeded random property lists of 0-6 entries per location (biased to "
